@@ -29,7 +29,7 @@ PROFILES = {
     # real encodings: real crypto (base64, serde impls, 32/64 byte types) + real consensus/mempool
     "R": dict(members=["consensus", "mempool", "crypto", "store", "network"],
               replace={"store": "store", "network": "network"},
-              kcoll=["consensus", "mempool"]),
+              kcoll=["consensus", "mempool", "crypto"]),
     # real store over an in-memory rocksdb model
     "S": dict(members=["store"], replace={}, kcoll=["store"]),
     # real network crate over a scripted tcp/framed model
@@ -39,9 +39,9 @@ PROFILES = {
 # "<P>8": same as <P> with kcoll capacity 8 (committees of up to 7)
 PROFILES["L8"] = PROFILES["L"]
 PATCHES = {
-    "L": ["tokio", "ed25519-dalek", "async-recursion", "bincode"],
-    "R": ["tokio", "ed25519-dalek", "async-recursion"],
-    "L8": ["tokio", "ed25519-dalek", "async-recursion", "bincode"],
+    "L": ["tokio", "ed25519-dalek", "async-recursion", "bincode", "futures", "bytes"],
+    "R": ["tokio", "ed25519-dalek", "async-recursion", "bytes"],
+    "L8": ["tokio", "ed25519-dalek", "async-recursion", "bincode", "futures", "bytes"],
     "S": ["tokio", "rocksdb"],
     "N": ["tokio", "tokio-util"],
 }
@@ -50,7 +50,7 @@ PATCHES = {
 ATTACH = {
     "consensus/src/config.rs": ["config_h.rs"],
     "consensus/src/core.rs": ["core_env.rs", "core_h.rs", "core2_h.rs"],
-    "consensus/src/messages.rs": ["messages_h.rs"],
+    "consensus/src/messages.rs": ["messages_h.rs", "messages_r.rs"],
     "consensus/src/aggregator.rs": ["aggregator_h.rs"],
     "consensus/src/leader.rs": ["leader_h.rs"],
     "consensus/src/synchronizer.rs": ["synchronizer_h.rs"],
@@ -65,7 +65,7 @@ ATTACH = {
     "mempool/src/mempool.rs": ["mmempool_h.rs"],
     "mempool/src/helper.rs": ["mhelper_h.rs"],
     "mempool/src/synchronizer.rs": ["msynchronizer_h.rs"],
-    "crypto/src/lib.rs": ["crypto_h.rs"],
+    "crypto/src/lib.rs": ["crypto_r.rs"],
     "store/src/lib.rs": ["store_h.rs"],
     "network/src/reliable_sender.rs": ["reliable_sender_h.rs"],
     "network/src/receiver.rs": ["receiver_h.rs"],
@@ -100,7 +100,8 @@ def rewrite_hash_imports(path):
 
 
 # files whose straight-line `async fn`s are lowered to plain functions (see deasync)
-DEASYNC = ["consensus/src/core.rs", "consensus/src/synchronizer.rs", "consensus/src/messages.rs", "consensus/src/mempool.rs"]
+DEASYNC = ["consensus/src/core.rs", "consensus/src/synchronizer.rs", "consensus/src/messages.rs", "consensus/src/mempool.rs",
+           "mempool/src/batch_maker.rs"]
 ASYNC_FN_RE = re.compile(r"\basync fn\s+(\w+)")
 
 
@@ -274,6 +275,9 @@ def main():
         extra = ""
         for h in mods:
             hp = os.path.join(HARNESS, h)
+            # harness files named *_r.rs use the real crypto types: profile R only; all others: every other profile
+            if h.endswith("_r.rs") != (a.profile == "R"):
+                continue
             if os.path.exists(hp):
                 relp = "../" * (rel.count("/")) + "_harness/" + h
                 extra += '\n#[cfg(%s)]\n#[path = "%s"]\npub(crate) mod kani_%s;\n' % (guard, relp, h[:-3])
@@ -287,6 +291,8 @@ def main():
         rel = fn.replace("__", "/")
         p = os.path.join(out, rel)
         ok = any(rel.startswith(pref) and a.profile in profs for pref, profs in REAL_IN.items())
+        if a.profile == "R" and rel not in ("mempool/src/lib.rs",):
+            ok = False  # the appended constructors serve the L-profile Core harnesses
         if ok and os.path.exists(p):
             with open(p, "a") as f:
                 f.write("\n" + open(os.path.join(apdir, fn)).read())  # (cfg(kani) already rewritten to cfg(test) in replay mode)
